@@ -6,7 +6,7 @@ def check(ctx, rep):
     treer.tree_6(ctx, rep)
     treer.tree_1(ctx, rep, only=['parso/python/diff.py'])
     # the line arithmetic of the diff parser is derived from end_pos / prefix positions: one notion of line break there
-    tok.tok_4(ctx, rep)      # order of indentation-stack changes and their tokens: the list is shared with the diff parser
+    tok.tok_4(ctx, rep, order=True)      # order of indentation-stack changes and their tokens: the list is shared with the diff parser
     rxr.rx_10(ctx, rep, ['parso/tree.py', 'parso/python/tree.py', 'parso/python/diff.py'])
     from ..rules import diffr
     diffr.diff_2(ctx, rep)   # the pending line end is decided on the node that really is the last one copied
